@@ -457,7 +457,7 @@ def random_spec(rng, sid, nmin=3, nmax=6, external=False, decoy=False, struct_va
     elems = []
     produced = []   # abstract types available
     args = []
-    alias = {'a/util': 'util', 'b/util': 'butil', 'c/vals': 'vals', 'c/ifs': 'ifs', 'c/extra': 'extra', 'd/v2': 'v2'} if external else {}
+    alias = {'a/util': 'util', 'b/util': 'butil', 'c/vals': 'vals', 'c/ifs': 'ifs', 'c/extra': 'extra', 'd/v2': 'v2', 'c/hold': 'hold'} if external else {}
     nT = [0]
     twin_done = [False]
     map_done = [False]
@@ -624,6 +624,16 @@ def random_spec(rng, sid, nmin=3, nmax=6, external=False, decoy=False, struct_va
                 funcs.append({'name': newname, 'requires': [], 'provides': t, 'fallible': False, 'pkg': pkg, 'decoy': True})
         else:
             produced.append(t)
+    if external:
+        # a package the configuration reaches ONLY through a selector chain: hold.HoldT.V
+        t = new_type(pkg='c/hold')
+        elems.append({'kind': 'value', 'type': t, 'pkg': 'c/hold', 'holder': True})
+        produced.append(t)
+    if external and not any(f_.get('pkg') == 'd/v2' for f_ in funcs):
+        t = new_type(pkg='d/v2')
+        funcs.append({'name': 'New%s' % t, 'requires': [], 'provides': t, 'fallible': False, 'pkg': 'd/v2'})
+        elems.append({'kind': 'func', 'name': 'New%s' % t})                               # v2.NewT, import without alias
+        produced.append(t)
     if external and not any(f_[0] == 'Fx' for t_ in types.values() for f_ in t_.get('fields', [])):
         # make sure every configuration with sub-packages has a struct taken apart by FieldsOf with a field nobody selects,
         # of a type whose package the configuration mentions nowhere else
